@@ -12,7 +12,7 @@ MANIFEST = dict(
     technique="TLA+ spec (PoolReset.tla) + TLC exhaustive model checking per (pool class, reset_on_return); spec->code replay of every state-graph edge on real pools over sqlite3")
 INVS = ["CleanWhileIdle", "TypeOK"]
 PROPS = ["CleanTxnAtCheckout", "CleanIsoAtCheckout", "PublishedOnlyByCommit", "NothingLeaksRollback"]
-NEED = ["Checkout", "Exec", "ExecFail", "Begin", "Commit", "Rollback", "SetIso", "Close", "Drop", "RawExec", "RawCommit", "RawRollback", "RawClose"]
+NEED = ["Checkout", "Exec", "ExecFail", "Begin", "Commit", "CommitFail", "Rollback", "SetIso", "Close", "Drop", "RawExec", "RawCommit", "RawRollback", "RawClose"]
 
 
 def main(chk):
